@@ -108,6 +108,55 @@ def run(name, props=None, tier="quick", seeds=(0,)):
     return results
 
 
+def prun_one(name, tier="quick", seed=0, keep=False):
+    """Run the property's check against a scratch worktree of /repo HEAD with the change applied (PYTHONPATH
+    makes `import reservoirpy` resolve to the worktree; evidence and replays go to a scratch VERIF_OUT), so that
+    many changes can be exercised at once and /repo itself is never patched."""
+    d = os.path.join(ROOT, "seeded", name)
+    meta = json.load(open(os.path.join(d, "meta.json")))
+    prop = meta.get("property") or name.split("-")[0]
+    wt = f"/tmp/sp_{name}"
+    outd = f"/tmp/sp_out_{name}"
+    sh(f"git -C {REPO} worktree remove --force {wt}; rm -rf {wt} {outd}")
+    rc, out = sh(f"git -C {REPO} worktree add -q --detach {wt} HEAD")
+    assert rc == 0, out
+    try:
+        rc, out = sh(f"git apply {os.path.join(d, 'patch.diff')}", cwd=wt)
+        if rc != 0:
+            print(f"[{name}] patch does not apply: {out}", flush=True)
+            return name, None
+        t = time.time()
+        rc, out = sh(f"./check {prop} --tier {tier}", cwd=ROOT,
+                     env={"VERIF_SEED": str(seed), "PYTHONPATH": wt, "VERIF_REPO": wt, "VERIF_OUT": outd}, timeout=3000)
+        viol = [l for l in out.splitlines() if l.startswith("VIOLATION")]
+        what = []
+        for v in viol[:3]:
+            try:
+                rp = v.split("replay=")[1].split()[0]
+                what.append(json.load(open(os.path.join(outd, rp))).get("what", "")[:300])
+            except Exception:
+                pass
+        res = {f"{prop}/seed{seed}": {"rc": rc, "violations": viol[:3], "what": what, "wall": round(time.time() - t, 1),
+                                     "tail": out[-600:] if rc not in (0, 1) else ""}}
+        print(f"[{name}] {prop} seed={seed} rc={rc} {viol[:1]} {what[:1]}", flush=True)
+        json.dump({"ran": time.strftime("%Y-%m-%d %H:%M"), "tier": tier, "results": res, "mode": "scratch worktree",
+                   "detected": rc == 1}, open(os.path.join(d, "result.json"), "w"), indent=1)
+        return name, rc
+    finally:
+        sh(f"git -C {REPO} worktree remove --force {wt}; rm -rf {wt}")
+        if not keep:
+            sh(f"rm -rf {outd}")
+
+
+def prun(names, jobs=6):
+    from concurrent.futures import ThreadPoolExecutor
+    with ThreadPoolExecutor(jobs) as ex:
+        res = list(ex.map(prun_one, names))
+    missed = [n for n, rc in res if rc != 1]
+    print(f"ran {len(res)}; not reported: {missed}")
+    return res
+
+
 if __name__ == "__main__":
     cmd = sys.argv[1]
     if cmd == "verify":
@@ -115,6 +164,18 @@ if __name__ == "__main__":
         sys.exit(0 if ok else 1)
     elif cmd == "run":
         run(sys.argv[2], sys.argv[3:] or None)
+    elif cmd == "prun":
+        args = sys.argv[2:]
+        jobs = 6
+        if args and args[0].startswith("-j"):
+            jobs = int(args[0][2:]); args = args[1:]
+        alln = sorted(n for n in os.listdir(os.path.join(ROOT, "seeded"))
+                      if os.path.exists(os.path.join(ROOT, "seeded", n, "patch.diff")))
+        if not args or args == ["all"]:
+            names = alln
+        else:
+            names = [n for n in alln if any(n == a or n.startswith(a + "-") for a in args)]
+        prun(names, jobs)
     elif cmd == "runall":
         for n in sorted(os.listdir(os.path.join(ROOT, "seeded"))):
             if os.path.exists(os.path.join(ROOT, "seeded", n, "patch.diff")):
